@@ -77,7 +77,7 @@ function rv(v) { return v.t === 'raw' ? toJS(v.v) : piecesToString(v.ps) }
 
 // spec tree -> canonical comparable form
 function canonSpec(nodes) {
-  return nodes.map((n) => {
+  return nodes.filter((n) => n.t !== 'formark').map((n) => {
     if (n.t === 'text') return { t: 'text', v: piecesToString(n.ps) }
     const o = { t: n.t }
     if (n.t === 'elem') o.tag = n.tag
@@ -169,6 +169,133 @@ function diff(a, b, path) {
   return null
 }
 
+
+// ---- l-value paths (C11) ------------------------------------------------------------------
+function collectSpec(nodes, out) {
+  for (const n of nodes) {
+    if (n.t === 'formark') out.push({ site: 'for', lp: n.lp })
+    else if (n.t === 'elem' || n.t === 'slot') {
+      out.push({ site: 'el', at: n.at || [] })
+      if (n.ch) collectSpec(n.ch, out)
+    } else if (n.ch) collectSpec(n.ch, out)
+  }
+  return out
+}
+
+function collectActual(node, out) {
+  for (const c of node.childNodes || []) {
+    if (c.type === 'text') continue
+    if (c.type === 'virt' && c.name === 'wx:for') {
+      out.push({ site: 'for', path: (c._$wxTmplArgs || {}).forLvaluePath })
+      collectActual(c, out)
+    } else if (c.type === 'elem' || (c.type === 'virt' && c.name === 'slot')) {
+      out.push({ site: 'el', node: c })
+      collectActual(c, out)
+    } else {
+      collectActual(c, out)
+    }
+  }
+  return out
+}
+
+function lpKeys(lp) { return lp.keys.map(toJS) }
+function lpGeneral(lp) {
+  if (lp.root === 'data') return [0].concat(lpKeys(lp))
+  if (lp.root === 'script') return [1, lp.abs].concat(lpKeys(lp))
+  return [2, lp.path, lp.mod].concat(lpKeys(lp))
+}
+function stripPre(p, pre) {
+  if (!Array.isArray(p)) return p
+  return p.map((x, i) => (i === 1 && (p[0] === 1 || p[0] === 2) && typeof x === 'string' && x.startsWith(pre) ? x.slice(pre.length) : x))
+}
+function eqPath(a, b) {
+  if (!Array.isArray(a) || !Array.isArray(b) || a.length !== b.length) return false
+  for (let i = 0; i < a.length; i += 1) if (!Object.is(a[i], b[i])) return false
+  return true
+}
+function cloneData(v) {
+  if (Array.isArray(v)) return v.map(cloneData)
+  if (v && typeof v === 'object') { const o = {}; for (const k of Object.keys(v)) o[k] = cloneData(v[k]); return o }
+  return v
+}
+function setAt(d, path, w) {
+  let cur = d
+  for (let i = 0; i < path.length - 1; i += 1) {
+    if (cur === null || typeof cur !== 'object' || !(path[i] in cur)) return false
+    cur = cur[path[i]]
+  }
+  if (cur === null || typeof cur !== 'object') return false
+  cur[path[path.length - 1]] = w
+  return true
+}
+
+function checkPaths(res, c, w, procGen, data) {
+  const S = collectSpec(c.tree, [])
+  const A = collectActual(w.shadowRoot, [])
+  res.pathSites = 0
+  res.pathsGiven = 0
+  if (S.length !== A.length) {
+    res.problems.push({ step: -1, what: 'tool: path sites do not line up', msg: S.length + ' vs ' + A.length })
+    res.ok = false
+    return
+  }
+  const SENT = { sentinel: true }
+  for (let i = 0; i < S.length; i += 1) {
+    const s = S[i]
+    const a = A[i]
+    if (s.site !== a.site) { res.problems.push({ step: -1, what: 'tool: path sites do not line up', msg: 'kind at ' + i }); res.ok = false; return }
+    const judge = (obs, lp, conv, what) => {
+      res.pathSites += 1
+      if (obs === undefined || obs === null) return
+      res.pathsGiven += 1
+      const o = stripPre(obs, c.pre || '')
+      if (!lp || !lp.ok) {
+        res.ok = false
+        res.problems.push({ step: -1, what: 'l-value path given to a non-assignable expression', diff: { path: what, want: 'none', got: JSON.stringify(o) } })
+        return
+      }
+      const want = conv === 'model' ? (lp.root === 'data' ? lpKeys(lp) : null) : lpGeneral(lp)
+      if (want === null || !eqPath(o, want)) {
+        res.ok = false
+        res.problems.push({ step: -1, what: 'l-value path differs from the location the expression reads', diff: { path: what, want: JSON.stringify(want), got: JSON.stringify(o) } })
+      }
+    }
+    if (s.site === 'for') { judge(a.path, s.lp, 'general', 'wx:for list'); continue }
+    const at = a.node.attrs
+    for (const e of s.at) {
+      if (!('lp' in e)) continue
+      if (e.ch === 'r') {
+        judge(at.model[e.n], e.lp, 'model', 'model path of ' + e.n)
+        judge(at.gp[e.n], e.lp, 'general', 'general path of ' + e.n)
+        // get-put on the real code: write a sentinel at the observed model path, re-create, read
+        const mp = at.model[e.n]
+        if (Array.isArray(mp)) {
+          const d2 = cloneData(data)
+          if (setAt(d2, mp, SENT)) {
+            try {
+              const w3 = new ProcGenWrapper(procGen)
+              w3.create(d2)
+              const A3 = collectActual(w3.shadowRoot, [])
+              // the sentinel may change the structure around the site (e.g. it replaces the list of an
+              // inner loop); then the sites no longer correspond and nothing can be concluded
+              if (A3.length !== A.length) continue
+              const got = A3[i] && A3[i].node ? A3[i].node.attrs.r[e.n] : undefined
+              res.getput = (res.getput || 0) + 1
+              if (got !== SENT) {
+                res.ok = false
+                res.problems.push({ step: -1, what: 'get-put fails: writing at the emitted model path does not change what the expression reads',
+                  diff: { path: e.n, want: 'sentinel', got: desc(got) } })
+              }
+            } catch (err) { res.problems.push({ step: -1, what: 'get-put creation threw', msg: String(err) }); res.ok = false }
+          }
+        }
+      } else if (e.ch === 'v') judge((at.v[e.n] || {}).path, e.lp, 'general', 'event ' + e.n)
+      else if (e.ch === 'p') judge((at.p[e.n] || {}).path, e.lp, 'general', 'change ' + e.n)
+      else if (e.ch === 'l') judge((at.l[e.n] || {}).path, e.lp, 'general', 'slot value ' + e.n)
+    }
+  }
+}
+
 function runCase(G, c) {
   const res = { id: c.id, ok: true, problems: [] }
   let procGen
@@ -237,6 +364,12 @@ function runCase(G, c) {
   res.bkeys = B ? Object.keys(B) : []
   res.bmDisabled = w.bindingMapDisabled
   check(-1, w, c.tree, undefined)
+  if (c.paths && res.ok) {
+    try { checkPaths(res, c, w, procGen, data) } catch (e) {
+      res.ok = false
+      res.problems.push({ step: -1, what: 'tool: path check threw', msg: String(e && e.stack || e) })
+    }
+  }
   const steps = c.steps || []
   for (let i = 0; i < steps.length; i += 1) {
     const s = steps[i]
